@@ -513,7 +513,7 @@ func ruleP2PKEAddressee(r *core.Report, ruleID string) {
 				continue
 			}
 			for _, v := range core.ReturnValues(ret, 1) {
-				if core.IsNilConst(v) {
+				if !nnShared(p).At(v, ret) {
 					ok = false
 				}
 			}
